@@ -13,7 +13,8 @@ import programs
 
 def run_family(pid, tier, family, invariants, props, cats, bounds, sample_n, j=1,
                required_actions=(), verdict=None, note='', pads=(0,), watch=False,
-               jitter=False, repeat=1, sched_independent=False, cmd_timeout=60, confirm_spec=None, min_cmds=2, subdir=None):
+               jitter=False, repeat=1, sched_independent=False, cmd_timeout=60, confirm_spec=None, min_cmds=2, subdir=None,
+               sched=0, trace_locks=False):
     """family: list of program dicts.  bounds: (max_hist, max_cmds).  Returns (verdict, coverage)."""
     t0 = time.time()
     verdict = verdict or common.Verdict(pid)
@@ -22,6 +23,7 @@ def run_family(pid, tier, family, invariants, props, cats, bounds, sample_n, j=1
     max_hist, max_cmds = bounds
     tot_states = tot_trans = 0
     tot_groups = tot_replayed = tot_alts = 0
+    trace_results = []
     samples = []
     cover = {}
     tool_errors = []
@@ -103,7 +105,12 @@ def run_family(pid, tier, family, invariants, props, cats, bounds, sample_n, j=1
         chosen = histories.sample(groups, sample_n if sample_n else len(groups), common.seed())
         pad = pads[(common.seed() + len(prog['name'])) % len(pads)]
         n_ok, fails = histories.replay_all(prog, chosen, bindir, os.path.join(d, 'replay'), nworkers=10, cats=cats,
-                                           pad=pad, watch=watch, jitter=jitter, repeat=repeat, cmd_timeout=cmd_timeout)
+                                           pad=pad, watch=watch, jitter=jitter, repeat=repeat, cmd_timeout=cmd_timeout,
+                                           sched=sched, trace_dir=os.path.join(d, 'traces') if trace_locks else None)
+        if trace_locks and os.path.isdir(os.path.join(d, 'traces')):
+            for fn in sorted(os.listdir(os.path.join(d, 'traces'))):
+                trace_results.append({'sc': {'id': '%s:%s' % (prog['name'], fn)}, 'dir': os.path.join(d, 'traces'),
+                                      'trace': os.path.join(d, 'traces', fn), 'problems': []})
         tot_replayed += n_ok + len(fails)
         tot_alts += sum(len(g) for g in chosen)
         if chosen and len(samples) < 4:
@@ -119,6 +126,24 @@ def run_family(pid, tier, family, invariants, props, cats, bounds, sample_n, j=1
             key = '%s:%s:%s' % ('hang' if hung else 'replay', prog['name'], json.dumps([e.get('input') for e in rep]))
             verdict.violation(key, dd, text)
 
+    lock_cov = {}
+    if trace_results:
+        # the lock / script / commit events of the runs under controlled scheduling against the lock protocol (TraceLocks)
+        import multicheck
+        import tracecheck
+        lv = multicheck.validate(trace_results, root, 'TraceLocks', lambda evs, res: tracecheck.locks_run(evs), ['Accepted', 'Mutex'])
+        lock_cov = {'TraceLocks_traces': len(trace_results), 'TraceLocks_events': lv['events'], 'TraceLocks_accepted': lv['accepted']}
+        for (r, inv, detail) in lv['violations']:
+            import re
+            m = re.search(r'bad = "([^"]*)"', detail)
+            why = m.group(1) if m else inv
+            rp = r['trace'] + '.violation.txt'
+            with open(rp, 'w') as f:
+                f.write('TraceLocks rejects the recorded execution %s\n%s\n\n%s\n' % (r['sc']['id'], why, detail))
+            verdict.violation('trace:TraceLocks:%s' % why, rp, 'TraceLocks: %s (recorded execution %s)' % (why, r['sc']['id']))
+        for r in trace_results:
+            for pb in r['problems']:
+                tool_errors.append('trace %s: %s' % (r['sc']['id'], pb))
     for a in required_actions:
         if cover.get(a, [0, 0])[1] == 0:
             tool_errors.append('coverage: action %s never taken' % a)
@@ -140,5 +165,8 @@ def run_family(pid, tier, family, invariants, props, cats, bounds, sample_n, j=1
         'note': note,
         'output_padding_bytes': list(pads), 'concurrent_reader': watch,
         'script_jitter': jitter, 'real_runs_per_history': repeat, 'schedule_independence_checked': sched_independent,
+        **lock_cov,
+        'controlled_scheduling': ('%d of every %d real runs under the gate serializer (uniform / PCT priorities, seed = run number)'
+                                  % (sched, sched + 1)) if sched else 'no',
     }
     return verdict, coverage, tool_errors, time.time() - t0
